@@ -247,6 +247,11 @@ func check(c Case) error {
 			}
 		}
 	}
+	// the returned elements are unmodified also in the sense that they are
+	// values of their own: appending to one changes no other
+	if d := pbfgen.AppendIndependence(got); d != "" {
+		return harness.Failf("C08/results-share-memory", "%s", d)
+	}
 	return nil
 }
 
